@@ -23,6 +23,10 @@ def ign_name(c):
     return {'': 'default', '#': 'hash', '@': 'at'}.get(c, c)
 
 
+def ch_name(c):
+    return {'+': 'plus', '-': 'minus', '.': 'dot'}.get(c, c)
+
+
 def confirm(ob, call, rep):
     """Second stage: same obligation, concrete, without any stub."""
     real = Ob(ob.name, ob.file, ob.func, env=dict(ob.env, VH_REAL=1))
@@ -74,11 +78,11 @@ def build(thorough):
     e3 = dict(VH_ITEMALPHA=a3)
     obs.append(Ob('item[len<=2]', H, 'item', T, env=dict(e3, VH_ITEMMAX=2)))
     for i in range(len(a3)):
-        obs.append(Ob(f'item[len=3,first={a3[i]}]', H, 'item', T,
+        obs.append(Ob(f'item[len=3,first={ch_name(a3[i])}]', H, 'item', T,
                       env=dict(e3, VH_ITEMMAX=3, VH_ITEMLEN=3, VH_ITEMFIRST=i)))
     for i in (range(na) if thorough else signs):
         for j in range(na):
-            obs.append(Ob(f'item[len=4,first={alpha[i]},second={alpha[j]}]', H, 'item', T,
+            obs.append(Ob(f'item[len=4,first={ch_name(alpha[i])},second={ch_name(alpha[j])}]', H, 'item', T,
                           env=dict(ea, VH_ITEMMAX=4, VH_ITEMLEN=4, VH_ITEMFIRST=i, VH_ITEMSECOND=j)))
     if thorough:
         # 5 characters: sign-led items over the 8-character alphabet
@@ -86,7 +90,7 @@ def build(thorough):
         for i in (a8.index('+'), a8.index('-')):
             for j in range(8):
                 for k in range(8):
-                    obs.append(Ob(f'item[len=5,first={a8[i]},second={a8[j]},third={a8[k]}]', H, 'item', T,
+                    obs.append(Ob(f'item[len=5,first={ch_name(a8[i])},second={ch_name(a8[j])},third={ch_name(a8[k])}]', H, 'item', T,
                                   env=dict(VH_ITEMALPHA=a8, VH_ITEMMAX=5, VH_ITEMLEN=5, VH_ITEMFIRST=i,
                                            VH_ITEMSECOND=j, VH_ITEMTHIRD=k)))
     imax = 5 if thorough else 4
